@@ -257,3 +257,12 @@ func Inflate(stream []byte) ([]byte, bool) {
 	}
 	return out, true
 }
+
+// Symbolic reports whether the harness runs under the symbolic engine.
+func Symbolic() bool { return false }
+
+// SetDial makes the next net.Dial return conn (engine only).
+func SetDial(conn any) {}
+
+// StubResult reports what an engine stub last returned (engine only; -1 natively).
+func StubResult(name string) int { return -1 }
